@@ -264,6 +264,16 @@ class Engine:
                 ob.status = 'unreach'
                 ob.detail = 'outside modelled subset: %s' % e
                 self.obligations.append(ob)
+                # bounded stand-in: the same clauses are checked natively on
+                # seeded samples of the precondition domain (never counted
+                # as proved; a failing sample is a replayed violation)
+                if isinstance(c, Contract):
+                    try:
+                        specs = self.arg_specs(c, cfg)
+                        self._cross_check(c, cfg, specs, [], None,
+                                          native_only=True)
+                    except Exception:
+                        pass
             except Exception as e:
                 self.errors.append('%s%s: %s\n%s' % (
                     c.name, cfg_label(cfg), e, traceback.format_exc()))
@@ -709,11 +719,13 @@ class Engine:
         return asg
 
     # ------------------------------------------------------------ crosscheck
-    def _cross_check(self, c, cfg, specs, paths, it):
+    def _cross_check(self, c, cfg, specs, paths, it, native_only=False):
         """translation validation of the extractor: the symbolic result term
         evaluated at random inputs must agree with CPython running the real
         function."""
         n = 20 if self.tier == 'quick' else 200
+        if native_only:
+            n *= 3
         rng = random.Random(self.seed * 7919 + _stable_hash(c.name))
         asgs = [self.sample_assignment(specs, rng) for _ in range(n)]
         clauses = [t for (_l, t) in c.ensures]
